@@ -49,3 +49,9 @@ Proof. reflexivity. Qed.
 (* the suffix of a new dc-location is created by a create-if-absent txn *)
 Lemma suffix_cmp_ok : cmps_getOrCreateLocalTSOSuffix = ["clientv3.CreateRevision(localTSOSuffixKey) = 0"].
 Proof. reflexivity. Qed.
+
+(* the client side of a batch (C05_client_batch_values is stated for exactly this formula) *)
+Lemma client_formula_ok :
+  src_addLogical = "{ return logical + count<<suffixBits }" /\
+  client_first_logical = ["firstLogical := addLogical(logical, -count+1, suffixBits)"].
+Proof. split; reflexivity. Qed.
